@@ -203,6 +203,19 @@ func retScenario(p retPop, b zzvrt.Bounds) *zzvrt.Scenario {
 					v = append(v, zzvrt.Violation{Clause: "expired-own-file-kept", Key: fmt.Sprintf("%s name=%s age=cutoff%+v", p.fileName, e.name, e.mtime.Sub(cutoff)),
 						Detail: fmt.Sprintf("%s (mtime %s, cut-off %s) should have been deleted [%s]", e.name, e.mtime.Format(time.RFC3339Nano), cutoff.Format(time.RFC3339Nano), key)})
 				case !expectDeleted && !left[e.name]:
+					// judged at the moment of the removal (a cleanup that runs a little after its rotation - a timer, a
+					// queue - sees a later "now"): the file was own-named and older than the maximum age THEN
+					if !e.dir && own.MatchString(e.name) {
+						late := false
+						for _, c := range x.FS.Log {
+							if c.Op == "remove" && c.Err == "" && c.Path == rollDir+"/"+e.name && e.mtime.Before(c.At.Add(-time.Duration(p.maxAge)*time.Hour)) {
+								late = true
+							}
+						}
+						if late {
+							break
+						}
+					}
 					v = append(v, zzvrt.Violation{Clause: "foreign-or-young-deleted", Key: fmt.Sprintf("%s name=%s age=cutoff%+v", p.fileName, e.name, e.mtime.Sub(cutoff)),
 						Detail: fmt.Sprintf("%s (dir=%v, mtime %s, cut-off %s) must survive but was deleted [%s]", e.name, e.dir, e.mtime.Format(time.RFC3339Nano), cutoff.Format(time.RFC3339Nano), key)})
 				}
@@ -258,9 +271,10 @@ func liveFileScenario(maxAge int32, quietHours int, b zzvrt.Bounds) *zzvrt.Scena
 	desc := fmt.Sprintf("maxAge=%dh quiet=%dh", maxAge, quietHours)
 	var errS string
 	var ids []string
+	at := map[string]time.Time{}
 	return &zzvrt.Scenario{
 		Desc:   desc,
-		Before: func() { resetAll(); errS = ""; ids = nil },
+		Before: func() { resetAll(); errS = ""; ids = nil; at = map[string]time.Time{} },
 		Opts:   zzvrt.RunOpts{Bounds: b, Start: retStart, TickStep: time.Hour},
 		Body: func() {
 			x := zzvrt.Cur()
@@ -284,6 +298,7 @@ func liveFileScenario(maxAge int32, quietHours int, b zzvrt.Bounds) *zzvrt.Scena
 				id := fmt.Sprintf("l%d", i)
 				a.Write([]byte(id + "\n"))
 				ids = append(ids, id)
+				at[id] = x.Now
 			}
 			zzvrt.WaitQuiescent()
 			// do not Stop: look at the directory as it is while the appender is live
@@ -315,9 +330,19 @@ func liveFileScenario(maxAge int32, quietHours int, b zzvrt.Bounds) *zzvrt.Scena
 			for _, n := range names {
 				all.Write(x.FS.Nodes[rollDir+"/"+n].Data)
 			}
-			// l0 sits in the first file, which may legitimately expire once it is no longer written to; the
-			// later lines are younger than any max age
+			// l0 sits in the first file, which may legitimately expire once it is no longer written to; so may a later
+			// line when the clock has moved on by more than the maximum age since it was written (two ticks of one hour
+			// in the thorough tier against a maximum age of one hour) and its file is no longer the one being written
 			for _, id := range ids[1:] {
+				wrote := at[id]
+				for _, c := range x.FS.Log { // the moment the bytes reached the file (the clock may have moved before the call returned)
+					if c.Op == "write" && c.Err == "" && c.Data == id+"\n" {
+						wrote = c.At
+					}
+				}
+				if x.Now.Sub(wrote) > time.Duration(maxAge)*time.Hour {
+					continue
+				}
 				if !strings.Contains(all.String(), id+"\n") {
 					v = append(v, zzvrt.Violation{Clause: "written-line-unreachable", Key: key, Detail: fmt.Sprintf("line %s is in no file of the directory (files %v)", id, names)})
 				}
@@ -574,4 +599,266 @@ func init() {
 		Make: func(tier string, i int) *zzvrt.Scenario {
 			return retLoggerScenario(pops(tier)[i/2], i%2 == 1, zzvrt.Bounds{Preempt: 1, Horizon: 8000})
 		}})
+}
+
+// ---------------------------------------------------------------------------------------------
+// C14 / C13 - "keep for ever": maximum ages whose length in seconds or nanoseconds is near or beyond
+// what 32 / 64 bits hold (596523 h * 3600 s < 2^31 <= 596524 h * 3600 s; 2562047 h < 2^63 ns <=
+// 2562048 h), up to the largest int32. Own files modified 1 hour, 1 year, 69 years and 250 years ago.
+// Oracle (exact integer arithmetic in seconds): whatever is YOUNGER than the maximum age survives, and
+// so do the files written in this run; what is older may or may not go (nobody waits 300 years).
+// ---------------------------------------------------------------------------------------------
+
+var foreverAges = []int32{596523, 596524, 1000000, 1193047, 2562047, 2562048, 3000000, 5124095, 5124096, 2147483647}
+
+func foreverScenario(prop string, maxAge int32, b zzvrt.Bounds) *zzvrt.Scenario {
+	olds := []int64{3600, 365 * 86400, 69 * 365 * 86400, 250 * 365 * 86400} // seconds before the tick
+	var errS string
+	desc := fmt.Sprintf("maxAge=%dh", maxAge)
+	return &zzvrt.Scenario{
+		Desc:   desc,
+		Before: func() { resetAll(); errS = "" },
+		Opts:   zzvrt.RunOpts{Bounds: b, Start: retStart, TickStep: time.Hour},
+		Body: func() {
+			x := zzvrt.Cur()
+			a := &log.RollingFileAppender{FileDir: rollDir, FileName: "app.log", Rotation: log.TimeRotation{Interval: time.Hour}, MaxAge: maxAge}
+			zzvrt.Atomic(func() {
+				x.FS.MkdirAll(rollDir)
+				for i, o := range olds {
+					x.FS.Put(fmt.Sprintf("%s/app.log.2000010100000%d", rollDir, i), []byte("keep\n"), time.Unix(retTick.Unix()-o, 0))
+				}
+				if err := a.Start(); err != nil {
+					errS = err.Error()
+				}
+				x.Now = retTick
+			})
+			if errS != "" {
+				return
+			}
+			a.Write([]byte("a0\n")) // rotates, spawns the cleanup
+			a.Write([]byte("a1\n"))
+			zzvrt.WaitQuiescent()
+			a.Stop()
+		},
+		Check: func(x *zzvrt.Exec) (string, []zzvrt.Violation) {
+			if x.Outcome != "" {
+				return x.Outcome, []zzvrt.Violation{{Clause: "no-" + strings.SplitN(x.Outcome, ":", 2)[0], Key: desc, Detail: x.Outcome}}
+			}
+			if errS != "" {
+				return errS, []zzvrt.Violation{{Clause: "setup", Key: desc, Detail: errS}}
+			}
+			var v []zzvrt.Violation
+			left := map[string]bool{}
+			for _, n := range x.FS.List(rollDir) {
+				left[n] = true
+			}
+			for i, o := range olds {
+				n := fmt.Sprintf("app.log.2000010100000%d", i)
+				if o < int64(maxAge)*3600 && !left[n] {
+					cl, d := "foreign-or-young-deleted", fmt.Sprintf("%s was last modified %d hours ago, the maximum age is %d hours: it was deleted", n, o/3600, maxAge)
+					if prop == "C13" {
+						cl = "write-lost"
+					}
+					v = append(v, zzvrt.Violation{Clause: cl, Key: desc, Detail: d})
+				}
+			}
+			var all strings.Builder
+			for _, ts := range []time.Time{retStart, retTick} {
+				n := "app.log." + ts.Format("20060102150405")
+				if !left[n] {
+					v = append(v, zzvrt.Violation{Clause: "live-file-deleted", Key: desc, Detail: "file " + n + " written in this run was deleted (maximum age " + fmt.Sprint(maxAge) + " hours)"})
+				} else {
+					all.Write(x.FS.Nodes[rollDir+"/"+n].Data)
+				}
+			}
+			for _, id := range []string{"a0\n", "a1\n"} {
+				if prop == "C13" && !strings.Contains(all.String(), id) {
+					v = append(v, zzvrt.Violation{Clause: "write-lost", Key: desc, Detail: fmt.Sprintf("write %q is in no file of the directory", id)})
+				}
+			}
+			var names []string
+			for n := range left {
+				names = append(names, n)
+			}
+			sort.Strings(names)
+			return strings.Join(names, ","), v
+		},
+	}
+}
+
+func init() {
+	for _, prop := range []string{"C14", "C13"} {
+		prop := prop
+		registerFamily(Fam{Prop: prop, Name: strings.ToLower(prop) + "/keep-for-ever", Tiers: "qt",
+			Count: func(string) int { return len(foreverAges) },
+			Make: func(tier string, i int) *zzvrt.Scenario {
+				return foreverScenario(prop, foreverAges[i], zzvrt.Bounds{Preempt: 1, Horizon: 5000})
+			}})
+	}
+}
+
+// ---------------------------------------------------------------------------------------------
+// C14 - a RELATIVE log directory and a process that changes its working directory (a daemon's
+// chdir("/")) between Start and a rotation. Two directories hold a file of the same own name: an
+// expired one where the appender was started, a young one under the new working directory. Whatever
+// the appender takes "the log directory" to be afterwards, a cleanup only ever removes a file that is
+// own-named AND older than the maximum age - judged by the file it actually removes.
+// ---------------------------------------------------------------------------------------------
+
+func init() {
+	for _, when := range []string{"chdir-after-start", "chdir-after-first-rotation", "no-chdir"} {
+		when := when
+		register("C14", "c14/relative-directory/"+when, "qt", func(tier string) *zzvrt.Scenario {
+			b := zzvrt.Bounds{Preempt: 1, Horizon: 5000}
+			var errS string
+			mt := map[string]time.Time{}
+			return &zzvrt.Scenario{
+				Before: func() { resetAll(); errS = ""; mt = map[string]time.Time{} },
+				Opts:   zzvrt.RunOpts{Bounds: b, Start: retStart, TickStep: time.Hour},
+				Body: func() {
+					x := zzvrt.Cur()
+					a := &log.RollingFileAppender{FileDir: "logs", FileName: "app.log", Rotation: log.TimeRotation{Interval: time.Hour}, MaxAge: 24}
+					zzvrt.Atomic(func() {
+						for _, d := range []string{"/A/logs", "/B/logs"} {
+							x.FS.MkdirAll(d)
+						}
+						put := func(p string, t time.Time) { x.FS.Put(p, []byte("keep\n"), t); mt[p] = t }
+						put("/A/logs/app.log.20250530100000", retTick.Add(-48*time.Hour))   // expired where the appender starts
+						put("/B/logs/app.log.20250530100000", retTick.Add(-time.Minute))    // same name, young, elsewhere
+						put("/B/logs/app.log.20250529100000", retTick.Add(-72*time.Hour))   // expired, elsewhere
+						put("/B/logs/other.log.20250530100000", retTick.Add(-72*time.Hour)) // not an own name
+						x.FS.Cwd = "/A"
+						if err := a.Start(); err != nil {
+							errS = err.Error()
+						}
+					})
+					if errS != "" {
+						return
+					}
+					if when == "chdir-after-start" {
+						x.FS.Chdir("/B")
+					}
+					x.Now = retTick
+					a.Write([]byte("a0\n")) // rotates, spawns the cleanup
+					zzvrt.WaitQuiescent()
+					if when == "chdir-after-first-rotation" {
+						x.FS.Chdir("/B")
+					}
+					x.Now = retTick.Add(time.Hour)
+					a.Write([]byte("a1\n")) // rotates again
+					zzvrt.WaitQuiescent()
+					a.Stop()
+				},
+				Check: func(x *zzvrt.Exec) (string, []zzvrt.Violation) {
+					key := when
+					if x.Outcome != "" {
+						return x.Outcome, []zzvrt.Violation{{Clause: "no-" + strings.SplitN(x.Outcome, ":", 2)[0], Key: key, Detail: x.Outcome}}
+					}
+					if errS != "" {
+						return errS, []zzvrt.Violation{{Clause: "setup", Key: key, Detail: errS}}
+					}
+					var v []zzvrt.Violation
+					var removed []string
+					own := regexp.MustCompile(`/app\.log\.\d{14}$`)
+					for _, c := range x.FS.Log {
+						if c.Op != "remove" || c.Err != "" {
+							continue
+						}
+						removed = append(removed, c.Path)
+						t, known := mt[c.Path]
+						switch {
+						case !own.MatchString(c.Path):
+							v = append(v, zzvrt.Violation{Clause: "foreign-or-young-deleted", Key: key, Detail: c.Path + " is not a name this appender produces and was removed"})
+						case !known:
+							v = append(v, zzvrt.Violation{Clause: "live-file-deleted", Key: key, Detail: c.Path + " was written in this run and was removed"})
+						case !t.Before(c.At.Add(-24 * time.Hour)):
+							v = append(v, zzvrt.Violation{Clause: "foreign-or-young-deleted", Key: key, Detail: fmt.Sprintf("%s, last modified %s, was removed at %s: younger than the maximum age of 24h", c.Path, t.Format("01-02 15:04"), c.At.Format("01-02 15:04"))})
+						}
+					}
+					if when == "no-chdir" {
+						if _, ok := x.FS.Nodes["/A/logs/app.log.20250530100000"]; ok {
+							v = append(v, zzvrt.Violation{Clause: "expired-own-file-kept", Key: key, Detail: "/A/logs/app.log.20250530100000 (48 h old, max age 24 h) is still there after two rotations"})
+						}
+					}
+					sort.Strings(removed)
+					return strings.Join(removed, ","), v
+				},
+			}
+		})
+	}
+}
+
+// ---------------------------------------------------------------------------------------------
+// C14 - two rolling appenders share a directory and differ in their maximum age (1 h and 24 h). Both
+// rotate at the same boundary, in either order. Each appender's limit applies to ITS files: a file of
+// the 24 h appender that is 2 h old survives, one of the 1 h appender that is 2 h old goes.
+// ---------------------------------------------------------------------------------------------
+
+func init() {
+	for _, order := range []string{"short-first", "long-first"} {
+		order := order
+		register("C14", "c14/two-appenders-one-directory/"+order, "qt", func(tier string) *zzvrt.Scenario {
+			b := zzvrt.Bounds{Preempt: 2, Horizon: 5000}
+			var errS string
+			return &zzvrt.Scenario{
+				Before: func() { resetAll(); errS = "" },
+				Opts:   zzvrt.RunOpts{Bounds: b, Start: retStart, TickStep: time.Hour},
+				Body: func() {
+					x := zzvrt.Cur()
+					short := &log.RollingFileAppender{FileDir: rollDir, FileName: "short.log", Rotation: log.TimeRotation{Interval: time.Hour}, MaxAge: 1}
+					long := &log.RollingFileAppender{FileDir: rollDir, FileName: "long.log", Rotation: log.TimeRotation{Interval: time.Hour}, MaxAge: 24}
+					zzvrt.Atomic(func() {
+						x.FS.MkdirAll(rollDir)
+						x.FS.Put(rollDir+"/short.log.20250601080000", []byte("keep\n"), retTick.Add(-2*time.Hour))
+						x.FS.Put(rollDir+"/long.log.20250601080000", []byte("keep\n"), retTick.Add(-2*time.Hour))
+						x.FS.Put(rollDir+"/long.log.20250529080000", []byte("keep\n"), retTick.Add(-50*time.Hour))
+						for _, a := range []*log.RollingFileAppender{short, long} {
+							if err := a.Start(); err != nil {
+								errS = err.Error()
+							}
+						}
+						x.Now = retTick
+					})
+					if errS != "" {
+						return
+					}
+					as := []*log.RollingFileAppender{short, long}
+					if order == "long-first" {
+						as = []*log.RollingFileAppender{long, short}
+					}
+					for _, a := range as {
+						a.Write([]byte("w\n")) // rotates, spawns / schedules its cleanup
+					}
+					zzvrt.WaitQuiescent()
+					short.Stop()
+					long.Stop()
+				},
+				Check: func(x *zzvrt.Exec) (string, []zzvrt.Violation) {
+					key := order
+					if x.Outcome != "" {
+						return x.Outcome, []zzvrt.Violation{{Clause: "no-" + strings.SplitN(x.Outcome, ":", 2)[0], Key: key, Detail: x.Outcome}}
+					}
+					if errS != "" {
+						return errS, []zzvrt.Violation{{Clause: "setup", Key: key, Detail: errS}}
+					}
+					var v []zzvrt.Violation
+					names := x.FS.List(rollDir)
+					has := map[string]bool{}
+					for _, n := range names {
+						has[n] = true
+					}
+					if !has["long.log.20250601080000"] {
+						v = append(v, zzvrt.Violation{Clause: "foreign-or-young-deleted", Key: key, Detail: "long.log.20250601080000 is 2 h old, its appender keeps files for 24 h: it was deleted (another appender's limit applied?)"})
+					}
+					if has["short.log.20250601080000"] {
+						v = append(v, zzvrt.Violation{Clause: "expired-own-file-kept", Key: key, Detail: "short.log.20250601080000 is 2 h old, its appender keeps files for 1 h: it is still there"})
+					}
+					if has["long.log.20250529080000"] {
+						v = append(v, zzvrt.Violation{Clause: "expired-own-file-kept", Key: key, Detail: "long.log.20250529080000 is 50 h old, its appender keeps files for 24 h: it is still there"})
+					}
+					return strings.Join(names, ","), v
+				},
+			}
+		})
+	}
 }
